@@ -1,10 +1,13 @@
 import AC.Drv.Proto
 import AC.SemX
+import AC.SemXText
 /-! driver handler for C03:
 `c03 <text hex> <impl parse: err | tree dump> <impl load: err | chain> <impl program | -> <impl error class> <impl ir: - | err | _ | dump>`
 
-Model side: `P.SemX.translate` / `P.SemX.load` run on the implementation's tree (so this file does not depend
-on the parser model) and are compared with the implementation's IR, chain, program and error class.
+Model side: `P.SemX.translate` / `P.SemX.load` run on the implementation's tree (so the semantic half does not
+depend on the parser model) and are compared with the implementation's IR, chain, program and error class;
+in addition the parser model `P.PegF.parse` (AC/PegFull.lean) is run on the text and compared with the
+implementation's tree, and the composed `P.SemX.loadText` with the load outcome.
 Spec side: `specRun`, a direct big-step evaluator written from the property text, independent of the IR
 pipeline and of `P.SemX.denote`. -/
 namespace AC.Drv
@@ -203,7 +206,13 @@ def handleC03 (f : List String) : Res :=
     | none => bad "c03-text"
     | some text =>
       let r : Res := {}
-      -- TODO(C03-parse): when AC/PegFull.lean is available, compare `P.PegF.showRes (P.PegF.parse text)` with T here.
+      -- parser model (AC/PegFull.lean, owned by C07): model parse of the text == impl tree
+      let r := cmp "parse" (P.PegF.showRes (P.PegF.parse text)) T r
+      -- the composed text-level model == impl load outcome
+      let mText := match loadText text with
+        | .ok st => showNats st.chain
+        | .error _ => "err"
+      let r := cmp "text-load" mText L r
       if T == "err" then
         -- the text is outside the grammar: it must be rejected
         let r := specIf "unparsable-text-rejected" (L == "err") r
